@@ -777,18 +777,23 @@ func ruleRebalanceCountsPartitionsNow(c *eng.Ctx) {
 	n, ok, why := 0, true, ""
 	eng.Instrs(fn, func(in ssa.Instruction) {
 		bo, isB := in.(*ssa.BinOp)
-		if !isB || bo.Op != token.LSS {
+		if !isB || (bo.Op != token.LSS && bo.Op != token.GTR) {
 			return
 		}
-		if _, isPhi := bo.X.(*ssa.Phi); !isPhi {
+		// counter < bound, or the same test written bound > counter
+		ctr, bound := bo.X, bo.Y
+		if bo.Op == token.GTR {
+			ctr, bound = bo.Y, bo.X
+		}
+		if _, isPhi := ctr.(*ssa.Phi); !isPhi {
 			return
 		}
-		if t, isBasic := bo.Y.Type().Underlying().(*types.Basic); !isBasic || t.Kind() != types.Int32 {
+		if t, isBasic := bound.Type().Underlying().(*types.Basic); !isBasic || t.Kind() != types.Int32 {
 			return
 		}
 		n++
-		if !isCount(bo.Y) {
-			ok, why = false, eng.Describe(bo.Y)
+		if !isCount(bound) {
+			ok, why = false, eng.Describe(bound)
 		}
 	})
 	if n == 0 {
